@@ -22,8 +22,8 @@ Definition ref_shapes : list (string * string) := [
   ("channelHandlers.shutdown", "{ var v1 sync.WaitGroup for _, v2 := range h { v1.Add(1) go func(v3 chan struct{}) { <-v3 v1.Done() }(v2) } v1.Wait() }");
   ("readLoop", "{ defer close(v1) v2 := readInputs(p.ctx, p.msgs, v3) if !errors.Is(v2, io.EOF) && !errors.Is(v2, cancelreader.ErrCanceled) { select { case <-p.ctx.Done(): case p.errs <- v2: } } }");
   ("waitForReadLoop", "{ select { case <-p.readLoopDone: case <-time.After(500 * time.Millisecond): } }");
-  ("exec", "{ if v1 := p.ReleaseTerminal(); v1 != nil { if v2 != nil { go p.Send(v2(v1)) } return } v3.SetStdin(p.input) v3.SetStdout(p.output) v3.SetStderr(os.Stderr) if v4 := v3.Run(); v4 != nil { _ = p.RestoreTerminal() if v2 != nil { go p.Send(v2(v4)) } return } v5 := p.RestoreTerminal() if v2 != nil { go p.Send(v2(v5)) } }");
-  ("suspend", "{ if v1 := p.ReleaseTerminal(); v1 != nil { return } suspendProcess() _ = p.RestoreTerminal() go p.Send(ResumeMsg{}) }");
+  ("exec", "{ if v1 := p.ReleaseTerminal(); v1 != nil { _ = p.RestoreTerminal() if v2 != nil { go p.Send(v2(v1)) } return } v3.SetStdin(p.input) v3.SetStdout(p.output) v3.SetStderr(os.Stderr) if v4 := v3.Run(); v4 != nil { _ = p.RestoreTerminal() if v2 != nil { go p.Send(v2(v4)) } return } v5 := p.RestoreTerminal() if v2 != nil { go p.Send(v2(v5)) } }");
+  ("suspend", "{ if v1 := p.ReleaseTerminal(); v1 != nil { _ = p.RestoreTerminal() return } suspendProcess() _ = p.RestoreTerminal() go p.Send(ResumeMsg{}) }");
   ("Batch", "{ var v1 []Cmd for _, v2 := range v3 { if v2 == nil { continue } v1 = append(v1, v2) } switch len(v1) { case 0: return nil case 1: return v1[0] default: return func() Msg { return BatchMsg(v1) } } }");
   ("Sequence", "{ return func() Msg { return sequenceMsg(v1) } }");
   ("standardRenderer.start", "{ if r.ticker == nil { r.ticker = time.NewTicker(r.framerate) } else { r.ticker.Reset(r.framerate) } r.once = sync.Once{} go r.listen() }");
